@@ -262,6 +262,40 @@ def check_wide(case):
     return info
 
 
+# ------------------------------------------------------------------ long series
+
+
+def long_cells(tier):
+    """Scorers on a day of 1 Hz data (86400 rows; thorough also 140000): cuts inside and across rows 32768 / 65536 / 131072, where a
+    blocked accumulation of the prefix sums would restart; relations shift (by 10 and -3 per column) and reverse."""
+    i = 0
+    for n in (86_400,) if tier == "quick" else (86_400, 140_000):
+        for name in ("CUSUM", "ChangeScore(L2Cost)", "L2Cost", "GaussianVarCost", "LocalAnomalyScore(L2Cost)", "L2Saving"):
+            for rel in ("shift", "reverse"):
+                if rel in SCORERS[name][2]:
+                    i += 1
+                    yield {"scorer": name, "n": n, "rel": rel, "seed": 12500 + i}
+
+
+def check_long(case):
+    name, n = case["scorer"], case["n"]
+    k = SCORERS[name][1]
+    rng = np.random.Generator(np.random.PCG64(case["seed"]))
+    X = rng.standard_normal((n, 2))
+    X[n // 3:] += 0.4
+    marks = [m for m in (32_768, 65_536, 131_072) if m + 2000 < n]
+    cuts = []
+    for m in marks:
+        base = [m - 700, m - 100, m + 300, m + 900]
+        cuts.append({2: [base[0], base[3]], 3: [base[0], base[2], base[3]], 4: base}[k])
+    cuts.append({2: [5, n - 7], 3: [5, n // 2, n - 7], 4: [5, n // 3, n // 2, n - 7]}[k])
+    cuts.append({2: [100, 900], 3: [100, 400, 900], 4: [100, 300, 500, 900]}[k])
+    t = {"kind": "shift", "shift": [10.0, -3.0]} if case["rel"] == "shift" else {"kind": "reverse"}
+    info = check_scorer({"scorer": name, "X": X, "cuts": cuts, "t": t, "same_object_view": False})
+    info["classes"] = list(info["classes"]) + [f"n={n}"]
+    return info
+
+
 # ------------------------------------------------------------------ detectors
 
 
@@ -551,4 +585,8 @@ FACETS = [
           rule=("ChangeScore(GaussianCovCost) on seeded data with 40 / 60 / 100 columns (thorough: 160), n = 6p, scale factors 1e-3, 0.01, 50, 1e3: "
                 "scale invariance within the error model; 12 cells (thorough: 16), every cell non-trivial"),
           shards_quick=6, shards_thorough=8, max_samples=1),
+    Facet(name="long_series", kind="enumerate", enumerate=long_cells, check=check_long, exhaustive=True, time_limit=300,
+          rule=("six scorers on 86400 seeded rows x 2 columns (thorough also 140000): cuts inside and across rows 32768 / 65536 / 131072, the whole series "
+                "and a short early cut; relations shift (by 10 and -3) and reverse within the error model; every cell non-trivial"),
+          shards_quick=8, shards_thorough=8, max_samples=1),
 ]
